@@ -63,7 +63,7 @@ func repoGoFiles(repo string) ([]string, error) {
 // treeHash identifies (library sources + simulator sources + generator version).
 func treeHash(repo, verif string) (string, error) {
 	h := sha256.New()
-	h.Write([]byte("overlaygen-v7\n"))
+	h.Write([]byte("overlaygen-v8\n"))
 	if exe, err := os.Executable(); err == nil {
 		if b, err := os.ReadFile(exe); err == nil {
 			h.Write(b)
@@ -232,7 +232,13 @@ func genOverlay(repo, verif, out, flavour string) (map[string]string, *overlaySt
 					}
 					id := len(siteNames)
 					siteNames = append(siteNames, pkgShort+"."+recvName(fd)+fd.Name.Name)
-					eds = append(eds, edit{off(fd.Body.Lbrace) + 1, 0, "simrt.Yield(" + strconv.Itoa(id) + ");"})
+					extra := ""
+					if dir == "internal/caching" && fd.Name.Name == "StrHash" {
+						// seam: runtime.strhash is keyed by a per-process random seed; inside a world the
+						// hash is a pure function of the string and a tape-chosen seed
+						extra = "if simrt.HashSeam() { return simrt.StrHash(s) };"
+					}
+					eds = append(eds, edit{off(fd.Body.Lbrace) + 1, 0, "simrt.Yield(" + strconv.Itoa(id) + ");" + extra})
 					st.YieldSites++
 					needImport = true
 					// probes on `case types.ERR_XXX:` / `case ERR_XXX:` clauses
